@@ -58,6 +58,14 @@ func gen(t *rapid.T) Case {
 		return out
 	}
 	mws := func() []int { return rapid.SliceOfN(rapid.IntRange(0, 5), 0, 2).Draw(t, "mws") }
+	if rapid.IntRange(0, 2).Draw(t, "bulk") > 0 {
+		// start from a populated table (plain Router calls on both sides), so that facade removals
+		// and cleans act on wide nodes
+		for _, p := range c.Pool {
+			c.Steps = append(c.Steps, Step{Kind: "handle", Obj: 0, Text: p, Variant: "get"})
+			handled = append(handled, p)
+		}
+	}
 	for i, n := 0, rapid.IntRange(2, 22).Draw(t, "nsteps"); i < n; i++ {
 		k := rapid.IntRange(0, 19).Draw(t, "kind")
 		oi := rapid.IntRange(0, len(objs)-1).Draw(t, "obj")
@@ -85,6 +93,9 @@ func gen(t *rapid.T) Case {
 					s.Text = tgt
 				} else {
 					s.Text = tgt[:rapid.IntRange(0, len(tgt)).Draw(t, "mkCut")]
+					if rapid.IntRange(0, 2).Draw(t, "mkWhole") == 0 {
+						s.Text = tgt // a prefix that is a whole pattern: its Clean removes that route and its extensions only
+					}
 				}
 			} else {
 				s.Text = rapid.SampledFrom([]string{"", "/z"}).Draw(t, "mkFree")
